@@ -61,3 +61,46 @@ Definition ex_s : ty := TStruct [115] [(Some [97], TPrim (PUInt 3 Sat)); (Some [
 Example C08_nonvacuous : wft ex_s = true /\
   map (fun fo => oexpandf (snd fo)) (field_offsets ex_s (Leaf [1; 16])) = [[8; 16]; [11; 19]; [19; 27; 35; 43]; [24; 32; 40; 48]].
 Proof. vm_compute. split; reflexivity. Qed.
+
+(* ---- soundness of the offsets with respect to the codec (appended by the Serdes builder; proofs in Serdes/OffsetsSound.v) ----
+   [ser_fields_tr] is [ser_fields] of the codec model (Serdes/Model.v) instrumented to record the writer's bit offset at the
+   moment every field is written (after its alignment step); [WR w bs]: writer w holds exactly the bit list bs.  The enclosing
+   composite / array / top level aligns the writer to 8 before a nested composite is written (w_align_to w 8). *)
+From PV Require Import Serdes.Model Serdes.Bits Serdes.WriterProofs Serdes.Spec Serdes.OffsetsSound.
+
+(* structures: the instrumented serializer is the serializer; every field gets a recorded start; the start of field i is an
+   element of the i-th offset set, for every valid value and every base set B containing the writer's bit length *)
+Theorem C08_sound_wrt_codec : forall nm fs B vs w bs,
+  wft (TStruct nm fs) = true -> serializable (TStruct nm fs) = true -> validb (TStruct nm fs) (VStruct vs) = true ->
+  WR w bs -> Den B (zlen bs) ->
+  let tr := snd (ser_fields_tr fs vs (w_align_to w 8)) in
+  fst (ser_fields_tr fs vs (w_align_to w 8)) = ser_fields ser fs vs (w_align_to w 8) /\
+  length tr = length fs /\
+  forall i f O x, nth_error (field_offsets (TStruct nm fs) B) i = Some (f, O) -> nth_error tr i = Some x -> Den O x.
+Proof. exact struct_offsets_sound. Qed.
+Print Assumptions C08_sound_wrt_codec.
+
+(* unions: the selected variant is written right after the tag, at an element of the (common) offset set *)
+Theorem C08_sound_wrt_codec_union : forall nm fs B k w bs f O,
+  wft (TUnion nm fs) = true -> WR w bs -> Den B (zlen bs) -> In (f, O) (field_offsets (TUnion nm fs) B) ->
+  Den O (woff (write_bits (w_align_to w 8) k (union_tag_width fs))).
+Proof. exact union_offsets_sound. Qed.
+Print Assumptions C08_sound_wrt_codec_union.
+
+(* delimited structures: the inner fields (serialized through a temporary writer, offsets from 0) are copied right after the
+   header: field i lands at (offset after the header) + (its offset in the temporary writer), an element of the i-th offset set *)
+Theorem C08_sound_wrt_codec_delimited : forall nm fs ext B vs w bs,
+  wft (TDelim (TStruct nm fs) ext) = true -> serializable (TStruct nm fs) = true -> validb (TStruct nm fs) (VStruct vs) = true ->
+  WR w bs -> Den B (zlen bs) ->
+  let after_header := woff (write_bits (w_align_to w 8) 0 (header_width (align (TStruct nm fs)))) in
+  let tr := snd (ser_fields_tr fs vs w_new) in
+  length tr = length fs /\
+  forall i f O x, nth_error (field_offsets (TDelim (TStruct nm fs) ext) B) i = Some (f, O) -> nth_error tr i = Some x -> Den O (after_header + x).
+Proof. exact delim_offsets_sound. Qed.
+Print Assumptions C08_sound_wrt_codec_delimited.
+
+(* non-vacuity: the structure of C08_nonvacuous written at bit 16 (in B = {1, 16}): the recorded starts lie in the computed sets *)
+Example C08_sound_nonvacuous :
+  snd (ser_fields_tr [(Some [97], TPrim (PUInt 3 Sat)); (Some [98], TVar (TPrim (PUInt 8 Sat)) 2); (None, TVoid 5); (Some [99], TStruct [116] [])]
+         [VInt 5; VList [VInt 1]; VStruct []] (w_align_to (write_bits w_new 0 16) 8)) = [16; 19; 35; 40].
+Proof. vm_compute. reflexivity. Qed.
